@@ -28,6 +28,11 @@ func keyShape(v ssa.Value) string {
 	if tv := tableValues(v); len(tv) > 0 && keyShapeTableIndex >= 0 && keyShapeTableIndex < len(tv) {
 		return keyShape(tv[keyShapeTableIndex])
 	}
+	// a key built by a module helper: the shape of what the helper returns, its parameters standing
+	// for the arguments
+	if sh, ok := helperKeyShape(v); ok {
+		return sh
+	}
 	switch x := v.(type) {
 	case *ssa.Call:
 		if f := x.Call.StaticCallee(); f != nil {
@@ -242,7 +247,22 @@ func opPathsF(f *ssa.Function, successOnly bool) []opPath {
 		// (`index < N`, N a positive constant, index starting below it) only the body is feasible
 		if ifi, ok := b.Instrs[len(b.Instrs)-1].(*ssa.If); ok && !again[b.Index] {
 			if bo, ok := ifi.Cond.(*ssa.BinOp); ok && bo.Op == token.LSS {
-				if n, isC := ssax.ConstInt(bo.Y); isC && n >= 1 && countsFromStart(bo.X, b) {
+				n, isC := ssax.ConstInt(bo.Y)
+				if !isC {
+					// len of a slice literal with a fixed number of elements
+					if lc, ok := bo.Y.(*ssa.Call); ok {
+						if bi, ok := lc.Call.Value.(*ssa.Builtin); ok && bi.Name() == "len" && len(lc.Call.Args) == 1 {
+							if sl, ok := lc.Call.Args[0].(*ssa.Slice); ok && sl.Low == nil && sl.High == nil {
+								if arr, ok := sl.X.(*ssa.Alloc); ok {
+									if at, ok := arr.Type().Underlying().(*types.Pointer).Elem().Underlying().(*types.Array); ok {
+										n, isC = at.Len(), true
+									}
+								}
+							}
+						}
+					}
+				}
+				if isC && n >= 1 && countsFromStart(bo.X, b) {
 					dfs(b.Succs[0], cur, facts, seen)
 					return
 				}
@@ -315,8 +335,20 @@ func decoderShapes(fn *ssa.Function) map[string]bool {
 		for _, in := range b.Instrs {
 			if call, ok := in.(*ssa.Call); ok {
 				if g := call.Call.StaticCallee(); g != nil && g.Name() == "NodeIdFromKey" {
-					s := keyShape(call)
-					out[strings.Replace(s, "NodeIdFromKey", "NodeKey", 1)] = true
+					n := 1
+					for _, a := range call.Call.Args {
+						if t := tableValues(a); len(t) > n {
+							n = len(t) // the suffix is drawn from a table of constants a loop walks
+						}
+					}
+					for i := 0; i < n; i++ {
+						if n > 1 {
+							keyShapeTableIndex = i
+						}
+						s := keyShape(call)
+						out[strings.Replace(s, "NodeIdFromKey", "NodeKey", 1)] = true
+					}
+					keyShapeTableIndex = -1
 				}
 			}
 		}
@@ -1156,6 +1188,49 @@ func tableValues(v ssa.Value) []ssa.Value {
 		}
 		return out
 	}
+	// a table of plain (non-constant) elements: []T{a, b} walked by a loop
+	if u, ok := v.(*ssa.UnOp); ok && u.Op == token.MUL {
+		if ia, ok := u.X.(*ssa.IndexAddr); ok {
+			if _, isConstIdx := ssax.ConstInt(ia.Index); !isConstIdx {
+				var arr *ssa.Alloc
+				switch b := ia.X.(type) {
+				case *ssa.Alloc:
+					arr = b
+				case *ssa.Slice:
+					arr, _ = b.X.(*ssa.Alloc)
+				}
+				if arr != nil {
+					if at, ok := arr.Type().Underlying().(*types.Pointer).Elem().Underlying().(*types.Array); ok && at.Len() <= 16 {
+						vals := make([]ssa.Value, at.Len())
+						for _, r := range *arr.Referrers() {
+							ea, ok := r.(*ssa.IndexAddr)
+							if !ok {
+								continue
+							}
+							idx, okI := ssax.ConstInt(ea.Index)
+							if !okI || idx < 0 || idx >= at.Len() {
+								continue
+							}
+							for _, rr := range *ea.Referrers() {
+								if st, ok := rr.(*ssa.Store); ok && st.Addr == ssa.Value(ea) {
+									vals[idx] = st.Val
+								}
+							}
+						}
+						complete := true
+						for _, x := range vals {
+							if x == nil {
+								complete = false
+							}
+						}
+						if complete {
+							return vals
+						}
+					}
+				}
+			}
+		}
+	}
 	field := -1
 	var elemAddr ssa.Value // &table[i] or table value indexed
 	var al *ssa.Alloc
@@ -1345,4 +1420,85 @@ func helperBucketPaths(in ssa.Instruction, successOnly bool) [][]bucketOp {
 		return nil
 	}
 	return out
+}
+
+var keyHelperDepth = 0
+
+// helperKeyShape: v is result #i of a call to a module helper (not one of the key constructors
+// themselves) whose every return hands back, in that position, a key of one and the same shape.
+func helperKeyShape(v ssa.Value) (string, bool) {
+	var call *ssa.Call
+	idx := 0
+	switch x := v.(type) {
+	case *ssa.Extract:
+		call, _ = x.Tuple.(*ssa.Call)
+		idx = x.Index
+	case *ssa.Call:
+		call = x
+	}
+	if call == nil || keyHelperDepth >= 2 {
+		return "", false
+	}
+	g := call.Call.StaticCallee()
+	if g == nil || !ssax.InModule(g) || len(g.Blocks) == 0 {
+		return "", false
+	}
+	switch g.Name() {
+	case "NodeKey", "PointKey", "termKey", "documentKey", "NodeIdFromKey":
+		return "", false // the constructors are the vocabulary of shapes
+	}
+	if !strings.Contains(load.PkgPath(g), "/shard") {
+		return "", false
+	}
+	if g.Signature.Results().Len() <= idx {
+		return "", false
+	}
+	if rt := g.Signature.Results().At(idx).Type().String(); rt != "[]byte" {
+		return "", false
+	}
+	saved := map[*ssa.Parameter]string{}
+	for i, p := range g.Params {
+		if i >= len(call.Call.Args) {
+			break
+		}
+		if old, ok := keyShapeBind[p]; ok {
+			saved[p] = old
+		}
+		a := call.Call.Args[i]
+		if c, ok := a.(*ssa.Const); ok && c.Value != nil && c.Value.Kind() == constant.Int {
+			if iv, ok := constant.Int64Val(c.Value); ok && iv > 31 && iv < 127 {
+				keyShapeBind[p] = "lit:" + fmt.Sprintf("%q", rune(iv))
+				continue
+			}
+		}
+		keyHelperDepth++
+		keyShapeBind[p] = keyShape(a)
+		keyHelperDepth--
+	}
+	shape, okAll := "", true
+	keyHelperDepth++
+	for _, b := range g.Blocks {
+		ret, ok := b.Instrs[len(b.Instrs)-1].(*ssa.Return)
+		if !ok || idx >= len(ret.Results) {
+			continue
+		}
+		sh := keyShape(ret.Results[idx])
+		if shape == "" {
+			shape = sh
+		} else if shape != sh {
+			okAll = false
+		}
+	}
+	keyHelperDepth--
+	for _, p := range g.Params {
+		if old, ok := saved[p]; ok {
+			keyShapeBind[p] = old
+		} else {
+			delete(keyShapeBind, p)
+		}
+	}
+	if shape == "" || !okAll || strings.HasPrefix(shape, "?") {
+		return "", false
+	}
+	return shape, true
 }
